@@ -511,6 +511,17 @@ func (env *specEnv) call(x SCall) Val {
 			return VInt{v.Len}
 		}
 		panic(unsupported("len() of non-sequence in contract"))
+	case "deref":
+		// deref(p): the value p points at (in the state the clause is evaluated in)
+		switch pv := arg(0).(type) {
+		case VPtr:
+			if pv.Obj >= 0 {
+				return fc.load(env.st, fc.ptrLoc(env.st, pv))
+			}
+		case VElemPtr:
+			return fc.readElem(env.st, pv.S, pv.Idx)
+		}
+		panic(unsupported("deref() of a pointer without a modelled target in contract"))
 	case "cap":
 		if v, ok := arg(0).(VSlice); ok {
 			return VInt{v.Cap}
@@ -562,6 +573,19 @@ func (env *specEnv) call(x SCall) Val {
 		// fresh(r): r's region was allocated after the old state
 		v := arg(0).(VSlice)
 		return VBool{and(le(env.old.nextR, v.Rgn), lt(v.Rgn, env.st.nextR))}
+	case "reuses":
+		// reuses(r, d): r lives in d's storage (same region, start and capacity; d as of the old state) or in a fresh region
+		r := arg(0).(VSlice)
+		n := *env
+		n.st = env.old
+		n.keepSlice = true
+		if n.cur == nil {
+			n.cur = env.st
+		}
+		d := n.eval(x.Args[1]).(VSlice)
+		inPlace := and(eq(r.Rgn, d.Rgn), eq(r.Off, d.Off), eq(r.Cap, d.Cap))
+		realloc := and(le(env.old.nextR, r.Rgn), lt(r.Rgn, env.st.nextR), eq(r.Off, mkInt(0)))
+		return VBool{and(le(r.Len, r.Cap), or(inPlace, realloc))}
 	case "extends":
 		// extends(r, d): r is d (as of the old state) grown by append: same prefix, in place or reallocated
 		r := arg(0).(VSlice)
